@@ -79,8 +79,9 @@ Verdict_a(ev) ==
                      /\ (ev.op \in {"tointx", "tointv"} => (got.e = 0 \/ (got.e > 0 /\ ev.x.e > 0)))
                      /\ (ev.op = "reduce" => (IF IsZero(got.c) THEN got.e = 0 ELSE LastDigit(got.c) # 0))>>,
        <<"root",  (ev.op \in {"sqrt", "cbrt"} /\ w.k = "skip" /\ ev.err = "" /\ ev.ctx.p > 0) =>
-                     /\ got.f = FIN /\ got.n = ev.x.n /\ ~IsZero(got.c)
-                     /\ (\/ Adj(got) < ev.ctx.emin \/ Adj(got) > ev.ctx.emax          \* outside the normal range: not claimed (DESIGN C11)
+                     /\ got.f = FIN /\ got.n = ev.x.n
+                     /\ (\/ IsZero(got.c) /\ Bit(ev.fl, F_SUBN)                         \* rounded to zero below the normal range
+                         \/ Adj(got) < ev.ctx.emin \/ Adj(got) > ev.ctx.emax          \* outside the normal range: not claimed (DESIGN C11)
                          \/ Bit(ev.fl, F_SUBN) \/ Bit(ev.fl, F_OVF)
                          \/ IF ev.op = "sqrt" THEN SqrtOK(ev.x.c, ev.x.e, got.c, got.e, ev.ctx.p, Bit(ev.fl, F_INEXACT))
                             ELSE CbrtOK(ev.x.c, ev.x.e, got.c, got.e, ev.ctx.p, Bit(ev.fl, F_INEXACT)))>>,
@@ -88,7 +89,7 @@ Verdict_a(ev) ==
        <<"flags", FlagsOK(ev.op, w, got, ev.fl)>>,
        <<"flagimp", FlagImpOK(got, ev.fl)>>,
        <<"rnd",   (w.k = "fin" /\ ev.op \in {"quantize", "tointx"} /\ ~IsZero(ev.x.c)) =>
-                     (Bit(ev.fl, F_ROUNDED) = (ev.x.e < ev.q))>>,
+                     (Bit(ev.fl, F_ROUNDED) = (ev.x.e < (IF ev.op = "quantize" THEN ev.q ELSE 0)))>>,
        <<"nbits", ev.fl \in 0..4095>>,
        <<"fits",  (delivered /\ (ev.op \in RoundingOps \/ ev.op = "quoint")) => Fits(ev.ctx, got)>>,
        <<"cnt",   (ev.op = "reduce" /\ w.k = "fin" /\ got.f = FIN) =>
